@@ -187,3 +187,17 @@ Proof. exact nids_le_edges. Qed.
 
 Theorem C03_event_bound_quadratic_example : quad_example_check = true.
 Proof. exact quad_example. Qed.
+
+(** "with and without debug assertions", the two assertions of [divide_segment] (exact instance):
+    dividing a LEFT event at a point that comes lexicographically after it always returns — in
+    every build profile.  Every division of the sweep is of this kind (C13: the division point
+    lies strictly inside a left-first sub-segment). *)
+From GB Require Import IntersectProofs LinkProofs OnEdge OnEdgeFull DebugSafe.
+Theorem C03_divide_segment_assertions_cannot_fire :
+  forall (cfg : Outcome.config) (s : Divide.sq NQ) (se_l se_r : eid) (lx ly ix iy : Q),
+  wf NQ (Divide.sq_st s) -> mapped NQ (Divide.sq_st s) se_l ->
+  e_other (getE (Divide.sq_st s) se_l) = Some se_r ->
+  e_left (getE (Divide.sq_st s) se_l) = true ->
+  e_point (getE (Divide.sq_st s) se_l) = fpt lx ly -> OnEdgeFull.lexlt lx ly ix iy ->
+  exists s', Divide.divide_segment cfg s se_l (fpt ix iy) = Ok s'.
+Proof. exact divide_segment_returns. Qed.
